@@ -28,6 +28,7 @@ const FINDINGS: &[&str] = &[
     "C13-rollback-to-scan-start-ignored",
     "C13-no-rescan-when-target-not-above-stored",
     "C13-target-above-tip-partial-range-root",
+    "C13-prune-before-legacy-roots",
     "C13-stale-resume-point-after-failed-import",
     "C13-chunked-import-skips-range-roots",
 ];
@@ -48,6 +49,7 @@ fn neutralise(cfg: &Config, finding: &str) -> Option<Config> {
         }
         "C13-rollback-to-scan-start-ignored" if !cfg.neut_back_to_scan_start => c.neut_back_to_scan_start = true,
         "C13-no-rescan-when-target-not-above-stored" if !cfg.neut_noop_on_stale => c.neut_noop_on_stale = true,
+        "C13-prune-before-legacy-roots" if !cfg.neut_prune_before_legacy => c.neut_prune_before_legacy = true,
         _ => return None,
     }
     Some(c)
@@ -65,22 +67,43 @@ fn diagnose(cfg: &Config, trace: &[Event], first: Option<Outcome>) -> Vec<Violat
     let mut result: Vec<Violation> = vec![];
     for _round in 0..FINDINGS.len() + 1 {
         let Some(v) = out.violation.clone() else { break };
-        let mut attributed = None;
+        let is_gone = |o: &Outcome| match &o.violation {
+            None => true,
+            Some(v2) => v2.at_event > v.at_event || (v2.at_event == v.at_event && v2.clause != v.clause),
+        };
+        let mut attributed: Option<(Vec<String>, Config, Outcome)> = None;
         for f in FINDINGS {
             let Some(c) = neutralise(&cur, f) else { continue };
             let o = sim::execute(&c, trace, true);
-            let gone = match &o.violation {
-                None => true,
-                Some(v2) => v2.at_event > v.at_event || (v2.at_event == v.at_event && v2.clause != v.clause),
-            };
-            if gone {
-                attributed = Some((f.to_string(), c, o));
+            if is_gone(&o) {
+                attributed = Some((vec![f.to_string()], c, o));
                 break;
             }
         }
+        if attributed.is_none() {
+            // two entangled triggers (neutralising one arms the other): try pairs
+            'pairs: for (i, f) in FINDINGS.iter().enumerate() {
+                let Some(c1) = neutralise(&cur, f) else { continue };
+                for g in &FINDINGS[i + 1..] {
+                    let Some(c2) = neutralise(&c1, g) else { continue };
+                    let o = sim::execute(&c2, trace, true);
+                    if is_gone(&o) {
+                        attributed = Some((vec![f.to_string(), g.to_string()], c2, o));
+                        break 'pairs;
+                    }
+                }
+            }
+        }
         match attributed {
-            Some((f, c, o)) => {
-                result.push(Violation { property: PROPERTY.into(), clause: v.clause, detail: v.detail, finding: Some(f) });
+            Some((fs, c, o)) => {
+                for f in fs {
+                    result.push(Violation {
+                        property: PROPERTY.into(),
+                        clause: v.clause.clone(),
+                        detail: v.detail.clone(),
+                        finding: Some(f),
+                    });
+                }
                 cur = c;
                 out = o;
             }
@@ -140,7 +163,10 @@ fn handle_violation(report: &mut RunReport, cfg: &Config, trace: &[Event], out: 
     let all_known =
         violations.iter().all(|x| x.finding.as_deref().is_some_and(|id| findings.is_known(PROPERTY, id)));
     let mut final_trace = trace.to_vec();
-    if !all_known {
+    // minimisation is expensive (up to ~200 re-executions): a worker process minimises only the first
+    // few violations it reports, the others keep their full trace (still replayable)
+    static MINIMISED: std::sync::atomic::AtomicU64 = std::sync::atomic::AtomicU64::new(0);
+    if !all_known && MINIMISED.fetch_add(1, std::sync::atomic::Ordering::SeqCst) < 3 {
         // something will be reported: minimise on the first violation, diagnose the minimised trace
         let min = minimise(cfg, trace, &v.clause);
         let vs = diagnose(cfg, &min, None);
@@ -184,6 +210,7 @@ impl ImportEngine {
         cfg.clamp_targets = true;
         cfg.neut_back_to_scan_start = true;
         cfg.neut_noop_on_stale = true;
+        cfg.neut_prune_before_legacy = rng.chance(0.85);
         params = GenParams {
             steps: rng.range(6, 12) as usize,
             p_db_crash: 0.0,
@@ -301,17 +328,19 @@ impl Engine for ImportEngine {
         }
         Some(Plan {
             runs: match tier {
-                Tier::Quick => 1500,
-                Tier::Thorough => 60_000,
+                Tier::Quick => 1600,
+                Tier::Thorough => 50_000,
             },
             level: "exploration",
             rule: "one run = one seeded history of 10-30 events (grow / fork / import / sign / restart / prune, with DB crash, transient DB error, reader error and fork-during-import attached to imports) over 1-2 nodes plus a quiescence phase; every 25th run is a fault-enumeration run (a short fault-free history, then every hooked DB statement of one of its imports tried as crash point and as transient error, every chain-sync call as reader error; large imports sampled). A run is non-trivial iff at least one successful import was checked against the oracle AND a roll-back was delivered to a node with a non-empty store AND, in fault-injecting configurations, at least one fault fired inside an import. distinct = distinct hash of the sequence of (event kind, node, outcome ok/err, scanning/no-op/stale, fault kind fired, fork during import).".into(),
             assumptions: vec![
                 "the Cardano node behaves as the chain-sync model S1-S6 in src/model.rs (PallasChainReader itself is not executed)".into(),
-                "a fork never replaces a branch by a shorter one (block numbers of the tip never decrease)".into(),
-                "a node that has pruned blocks never sees a roll-back reaching below the start of the block range of its lowest stored block (pruning keeps k blocks in production)".into(),
+                "a chain switch never goes to a shorter chain (the block number of the tip never decreases)".into(),
+                "runs in which any node prunes: forks are at most keep-14 blocks deep (production: keep = k >= deepest roll-back); a pruned node cannot rebuild the root of a block range it no longer stores".into(),
+                "a first block sitting at slot 0 is never replaced by a fork (ChainScannedBlocks::RollBackward(SlotNumber) cannot tell origin from slot 0)".into(),
                 "legacy CardanoTransactions beacons are block-range aligned (15k-1), as produced by CardanoTransactionsSigningConfig::compute_block_number_to_be_signed".into(),
-                "import(target) with target <= highest stored block does not consult the chain by design; after a fork such a call is not judged against the canonical chain (the statement speaks of increasing targets), the next scanning import is".into(),
+                "ChainDataImporterByChunk.import(0) on an empty store is a no-op (block number 0 arrives with the first target >= 1): observed and counted, not judged".into(),
+                "known-finding triggers are neutralised in the harness in ~85-90 % of the runs each and left active in the others, where a violation must be attributed counterfactually or fails the check (REPORT.md)".into(),
                 "durability below SQLite's commit is out of scope (a crash is a process death at a statement boundary)".into(),
             ],
             real_components: vec![
